@@ -122,4 +122,35 @@ theorem fillItems_names (cols : List Name) (v : Val) (sub : List Name) : (fillIt
           apply List.map_congr_left; intro c _; simp only [Function.comp]; split <;> rfl
     _ = cols := by simp
 
+theorem replaceItems_names (cols : List Name) (o n : Val) (sub : List Name) : (replaceItems cols o n sub).map (·.1) = cols := by
+  simp only [replaceItems, List.map_map]
+  calc _ = cols.map id := by
+          apply List.map_congr_left; intro c _; simp only [Function.comp]; split <;> rfl
+    _ = cols := by simp
+
+theorem toDFItems_ident : ∀ (cols names : List Name),
+    toDFItems (identSel cols) names = List.zipWith (fun c n => (n, Expr.col c)) cols names := by
+  intro cols
+  induction cols with
+  | nil => intro names; simp [toDFItems, identSel]
+  | cons c cs ih =>
+    intro names
+    cases names with
+    | nil => simp [toDFItems, identSel]
+    | cons n ns =>
+      have := ih ns
+      simp only [toDFItems, identSel, List.map_cons, List.zipWith_cons_cons] at this ⊢
+      rw [this]
+
+theorem zipWith_names : ∀ (cols names : List Name), names.length = cols.length →
+    (List.zipWith (fun c n => (n, Expr.col c)) cols names).map (·.1) = names := by
+  intro cols
+  induction cols with
+  | nil => intro names h; cases names <;> simp_all
+  | cons c cs ih =>
+    intro names h
+    cases names with
+    | nil => simp at h
+    | cons n ns => simp only [List.zipWith_cons_cons, List.map_cons]; rw [ih ns (by simpa using h)]
+
 end Sqlframe
